@@ -288,6 +288,23 @@ def check(facts, rep, tier, cfg):
         rep.ok("C05.R10", i["key"], i["where"], i["detail"], nontrivial=False)
     for v in sub13.violations:
         rep.bad("C05.R10", v["key"].split("/", 1)[1], v["where"], v["msg"])
+    # ---- R11 an aborted stream is signalled, so the peer's reader gets its end-of-stream (= C06.R3)
+    rep.rule("C05.R11", "a stream dropped without shutdown is always signalled to the peer (= C06.R3): closing an established stream that has "
+                        "not sent Finish queues a Reset whatever the state of the other direction - otherwise the peer's reader, which has "
+                        "received every byte, never sees end-of-stream")
+    import rules_c06
+    sub06 = type(rep)(rep.prop, rep.tier, rep.config)
+    try:
+        rules_c06.check(facts, sub06, tier, cfg)
+    except Exception:
+        sub06 = None
+    if sub06 is not None:
+        for i in sub06.instances:
+            if i["rule"] == "C06.R3":
+                rep.ok("C05.R11", i["key"], i["where"], i["detail"], nontrivial=False)
+        for v in sub06.violations:
+            if v["rule"] == "C06.R3":
+                rep.bad("C05.R11", v["key"].split("/", 1)[1] if v["key"].startswith("C06.") else v["key"], v["where"], v["msg"])
     rep.rule("C05.S7", "who-may: the functions that touch the critical resources behind this property are those of the reference tree (flow table, closed flag, per-stream / datagram / outbound queues, last-pong timestamp, client id maps, shared TLS identity)")
     import whomay
     whomay.check(facts, rep, "C05.S7", "C05")
